@@ -158,22 +158,33 @@ func (b *Batch) generate(it *Item) {
 		args = append(args, "-r")
 	}
 	args = append(args, it.ExtraArgs...)
-	mainFile := it.Prog.Files[0].Path
-	args = append(args, filepath.Join(idlDir, mainFile))
-	ctx, cancel := context.WithTimeout(context.Background(), 5*time.Minute)
-	defer cancel()
-	cmd := exec.CommandContext(ctx, b.Thriftgo, args...)
-	cmd.Dir = cwd
-	cmd.Env = []string{"PATH=" + os.Getenv("PATH"), "HOME=" + cwd}
-	var so, se bytes.Buffer
-	cmd.Stdout, cmd.Stderr = &so, &se
-	err := cmd.Run()
-	it.Stdout, it.Stderr = so.String(), se.String()
+	// Without -r a user generates every file of a program separately into the
+	// same output root; do the same so that the packages of included files exist.
+	mains := []string{it.Prog.Files[0].Path}
+	if !it.Recurse {
+		for _, f := range it.Prog.Files[1:] {
+			mains = append(mains, f.Path)
+		}
+	}
 	it.Exit = 0
-	if err != nil {
-		it.Exit = -1
-		if ee, ok := err.(*exec.ExitError); ok {
-			it.Exit = ee.ExitCode()
+	for _, mainFile := range mains {
+		a := append(append([]string{}, args...), filepath.Join(idlDir, mainFile))
+		ctx, cancel := context.WithTimeout(context.Background(), 5*time.Minute)
+		cmd := exec.CommandContext(ctx, b.Thriftgo, a...)
+		cmd.Dir = cwd
+		cmd.Env = []string{"PATH=" + os.Getenv("PATH"), "HOME=" + cwd}
+		var so, se bytes.Buffer
+		cmd.Stdout, cmd.Stderr = &so, &se
+		err := cmd.Run()
+		cancel()
+		it.Stdout += so.String()
+		it.Stderr += se.String()
+		if err != nil {
+			it.Exit = -1
+			if ee, ok := err.(*exec.ExitError); ok {
+				it.Exit = ee.ExitCode()
+			}
+			break
 		}
 	}
 	_ = filepath.Walk(it.OutDir, func(p string, info os.FileInfo, err error) error {
@@ -334,11 +345,22 @@ func attribute(out string) map[string][]string {
 }
 
 // BuildAll compiles every generated package (go build ./gen/...).
-func (b *Batch) BuildAll(vet bool) *BuildResult {
-	out, err := b.goCmd("build", "-gcflags=-e", "./gen/...")
+func (b *Batch) BuildAll(vet bool) *BuildResult { return b.BuildItems(nil, vet) }
+
+// BuildItems compiles (and vets) the generated packages of the given items
+// with the real toolchain; nil means all.
+func (b *Batch) BuildItems(keys []string, vet bool) *BuildResult {
+	pats := []string{"./gen/..."}
+	if keys != nil {
+		pats = nil
+		for _, k := range keys {
+			pats = append(pats, "./gen/"+k+"/...")
+		}
+	}
+	out, err := b.goCmd(append([]string{"build", "-gcflags=-e"}, pats...)...)
 	r := &BuildResult{OK: err == nil, Output: out, PerItem: attribute(out)}
 	if err == nil && vet {
-		out, err = b.goCmd("vet", "./gen/...")
+		out, err = b.goCmd(append([]string{"vet"}, pats...)...)
 		if err != nil {
 			r.OK = false
 			r.Output += out
